@@ -121,7 +121,7 @@ def law_of(br):
     """Declarative element law of a case branch: ('Z', z, vsrc) meaning  z*j = vsrc_term + v  forms, see below.
     Returns (form, p, s, linear):  form 'V': v - p*j = s ;  form 'I': j - p*v = s ; linear = reported current is -j."""
     c = br['ctor']
-    a = [CQ.of(x) for x in br['args']]
+    a = [CQ.of(x) for x in br.get('args_exact', br['args'])]
     Z0 = CQ(0)
     if c in ('resistor', 'impedance'):
         return ('V', a[0], Z0, False)
